@@ -107,7 +107,11 @@ def in_repo(live_mod):
     if not f:
         return False
     repo = os.path.realpath(os.environ.get("VERIF_REPO", "/repo"))
-    return os.path.realpath(f).startswith(repo + os.sep) and f.endswith(".py")
+    rf = os.path.realpath(f)
+    if rf.startswith(repo + os.sep) and f.endswith(".py"):
+        return True
+    # sidecar specification functions (contracts/spec_*.py) are executed by the same engine
+    return os.path.basename(rf).startswith("spec_") and os.path.basename(os.path.dirname(rf)) == "contracts"
 
 
 def func_node(live_fn):
@@ -258,7 +262,7 @@ def loop_key(node):
 
 
 class Interp:
-    def __init__(self, ctx: Ctx, *, overrides=None, field_types=None, loops=None, unroll=None, max_depth=40):
+    def __init__(self, ctx: Ctx, *, overrides=None, field_types=None, loops=None, unroll=None, max_depth=40, field_invs=None):
         self.ctx = ctx
         self.overrides = overrides or {}
         self.field_types = field_types or {}
@@ -270,6 +274,8 @@ class Interp:
         self.functions_entered = {}
         self.pure_mode = False
         self.cut_at = None
+        self.override_calls = {}
+        self.field_invs = field_invs or {}
 
     # ------------------------------------------------------------------ values
     def reflect(self, obj, name="const"):
@@ -715,6 +721,10 @@ class Interp:
                     raise Unsupported(f"no type for field {o.cands[0].__name__}.{name}")
                 val = self.make(ft, f"{o.name}.{name}")
                 o.fields[name] = val
+                for k in o.cands[0].__mro__:
+                    inv = self.field_invs.get((k.__name__, name))
+                    if inv is not None:
+                        inv(self, o, val)
                 return val
             if first is MISSING or isinstance(first, pytypes.MemberDescriptorType):
                 self.raise_exc(AttributeError, f"{o.cands[0].__name__}.{name}", node)
@@ -784,7 +794,10 @@ class Interp:
         ov = self.overrides.get(qn)
         if ov is None:
             ov = self.overrides.get(live.__qualname__)
+        if self.depth > 0 and (qn + "@rec") in self.overrides:
+            ov = self.overrides[qn + "@rec"]
         if ov is not None:
+            self.override_calls[qn] = self.override_calls.get(qn, 0) + 1
             return ov(self, args, kwargs)
         fnode, mod = func_node(live)
         if fnode is None:
